@@ -6,8 +6,10 @@ from props.C01 import ASSUMPTIONS as A01, TRUSTED as T01
 from props.mandoline_kernels import kernel_tasks, kernel_canaries
 
 MM = "amr_kitchen.mandoline.mandoline.Mandoline."
-ASSUMPTIONS = A01 + ["interpolation over reals; per-level interpolation, header text and FAB writing are covered by the bounded "
-                     "run-time layer (np.empty poisoned) in this round; where a level has a sample on one side of the plane "
+ASSUMPTIONS = A01 + ["interpolation over reals; the per-level interpolation statements, box selection, slice_box, the global 2D Header "
+                     "(writer then real parser on skeletons, with and without a level limit) and the chunking arithmetic are under "
+                     "contract; the NaN bookkeeping of interpolate_bylevel, the level Cell_H text and FAB writing are covered by the "
+                     "bounded run-time layer (np.empty poisoned); where a level has a sample on one side of the plane "
                      "only, 'that level's own data' is read as the single available sample",
                      "fragment extraction: the chunking statements of write_cell_data_at_level are executed in isolation "
                      "(everything else of the method is dropped)"]
@@ -56,13 +58,14 @@ def tasks(tier):
     from props.mandoline_boxes import box_tasks
     from props.mandoline_parents import kernel_tasks2
     return kernel_tasks("C16", ["expand"]) + [Chunking()] + parent_tasks("C16") + box_tasks("C16", ["slice"])[:1 if tier == "quick" else 3] + \
-        kernel_tasks2("C16", ("bylevel",))
+        kernel_tasks2("C16", ("bylevel",)) + __import__("props.roundtrip", fromlist=["slice_header_tasks"]).slice_header_tasks(tier)
 
 
 def canaries(tier):
     from props.mandoline_parents import parent_canaries
     from props.mandoline_parents import kernel_canaries2
-    return kernel_canaries(["expand"]) + parent_canaries()[:1] + kernel_canaries2(("bylevel",)) + [
+    from props.roundtrip import slice_header_canaries
+    return kernel_canaries(["expand"]) + parent_canaries()[:1] + kernel_canaries2(("bylevel",)) + slice_header_canaries() + [
         ("chunking: number of chunks rounded down",
          [("amr_kitchen/mandoline/mandoline.py", "nchunks = -(-len(cell_indexes) // chunk_size)",
            "nchunks = len(cell_indexes) // chunk_size")], ["write_cell_data_at_level.chunking"])]
